@@ -204,9 +204,61 @@ def run(t, case):
     return t.subsample(case["n"], **kw)
 
 
+XPROC = r"""
+import json, sys
+sys.path.insert(0, %r)
+import numpy as np
+from biom import Table
+ids_o = ["gut", "skin", "feces", "tongue", "soil", "water", "o7", "o8"]
+ids_s = ["palm", "nose", "ear", "s4", "s5", "s6"]
+t = Table(np.arange(1, 49, dtype=float).reshape(8, 6) %% 7 + 1, ids_o, ids_s)
+out = []
+for axis in ("sample", "observation"):
+    for seed in (0, 1, 7, 12345):
+        for kw in ({"by_id": True}, {}, {"with_replacement": True}):
+            n = 3 if kw.get("by_id") else 5
+            r = t.subsample(n, axis=axis, seed=seed, **kw)
+            out.append([axis, seed, sorted(kw), [str(i) for i in r.ids()],
+                        [str(i) for i in r.ids(axis="observation")],
+                        r.matrix_data.toarray().tolist()])
+print(json.dumps(out))
+"""
+
+
+def check_xproc(case, rec):
+    """The same seed gives the same result in another run of the program:
+    the draws are repeated in fresh interpreters whose string hashing is
+    seeded differently."""
+    import json
+    import subprocess
+    import sys
+    from ..core import REPO
+    code = XPROC % (REPO,)
+    outs = []
+    for hs in case["xproc"]["hashseeds"]:
+        env = dict(os.environ, PYTHONHASHSEED=str(hs))
+        p = subprocess.run([sys.executable, "-c", code], env=env,
+                           capture_output=True, text=True, cwd="/")
+        if p.returncode != 0:
+            raise Violation("xproc-failed", "subsampling in a fresh "
+                            "interpreter failed: %s" % p.stderr[-400:])
+        outs.append(json.loads(p.stdout))
+    rec.cls("cross-process-reproducibility")
+    for hs, o in zip(case["xproc"]["hashseeds"][1:], outs[1:]):
+        for a, b in zip(outs[0], o):
+            if a != b:
+                raise Violation("seed-not-reproducible", "subsample(%r) "
+                                "gives %r in one interpreter and %r in "
+                                "another (PYTHONHASHSEED=%s)" %
+                                (a[:3], a[3:], b[3:], hs))
+    rec.nt(True)
+
+
 def check(case, rec):
     if "dist" in case:
         return check_distribution(case, rec)
+    if "xproc" in case:
+        return check_xproc(case, rec)
     t = gen.build(case["table"], rec=rec)
     before = observe.snapshot(t)
     ref = Ref.from_snapshot(before)
@@ -299,23 +351,32 @@ DIST = [
     {"vec": [2, 2], "n": 3, "mode": "with"},
     {"vec": [1, 1, 1, 1], "n": 2, "mode": "by_id"},
     {"vec": [4, 1, 1], "n": 1, "mode": "by_id"},
+    # a single unit drawn from unequal entries
+    {"vec": [9, 1], "n": 1, "mode": "without"},
+    {"vec": [1, 2, 3], "n": 1, "mode": "without"},
+    {"vec": [5, 1], "n": 1, "mode": "with"},
 ]
 NSEEDS = {"quick": 2000, "thorough": 40000}
 
 
 def ENUM_NAME(tier):
     return ("exact distribution: %d fixed vectors x 2 axes x %d seeds derived"
-            " from VERIF_SEED (chi-square vs exact pmf, p < 1e-9 rejects)" %
+            " from VERIF_SEED (chi-square vs exact pmf, p < 1e-9 rejects); "
+            "plus the same seeded draws repeated in 3 fresh interpreters "
+            "with different string-hash seeds" %
             (len(DIST), NSEEDS[tier]))
 
 
 def enum_chunks(tier):
     return [(k, axis) for k in range(len(DIST))
-            for axis in ("sample", "observation")]
+            for axis in ("sample", "observation")] + [("xproc", None)]
 
 
 def enum_chunk(tier, chunk):
     k, axis = chunk
+    if k == "xproc":
+        yield {"xproc": {"hashseeds": [1, 2, 12345]}}
+        return
     base = int(os.environ.get("VERIF_SEED", "1") or 1)
     d = dict(DIST[k])
     d.update({"axis": axis, "seeds": NSEEDS[tier],
